@@ -52,14 +52,21 @@ def traced_files():
     return {E.__file__, C.__file__, G.__file__, V.__file__}
 
 
-def gen_history(rng, n):
+def gen_history(rng, n, ng_heavy=False):
     h = []
     for _ in range(n):
+        k = rng.random()
+        if ng_heavy and k < 0.7:
+            # mostly facts with repeated variables and calls that bind one of their arguments
+            h.append(['assertng', rng.choice(['g', 'h'])] if rng.random() < 0.3 else ['query2', rng.choice(['g', 'h']), rng.choice('abc')])
+            continue
         k = rng.random()
         if k < 0.18:
             h.append(['load', rng.randrange(len(SNIPS)), rng.random() < 0.5, rng.random() < 0.5])
         elif k < 0.34:
             h.append(['assert', rng.choice(['p', 'f']), rng.choice('abc'), rng.random() < 0.5, rng.random() < 0.5])
+        elif k < 0.38:
+            h.append(['assertng', rng.choice(['g', 'g', 'h'])])
         elif k < 0.42:
             h.append(['retract', rng.choice(['p', 'f']), rng.randrange(3)])
         elif k < 0.46:
@@ -76,8 +83,10 @@ def gen_history(rng, n):
             h.append(['step', rng.randrange(4)])
         elif k < 0.95:
             h.append(['close', rng.randrange(4), rng.choice(['close', 'drop'])])
-        else:
+        elif k < 0.975:
             h.append(['query', rng.choice(QUERIES)])
+        else:
+            h.append(['query2', rng.choice(['g', 'h']), rng.choice('abc')])
     return h
 
 
@@ -99,10 +108,16 @@ def gen(seed, tier):
             n, a = rng.choice([['p', 2], ['h1', 2], ['h2', 1], ['s', 2], ['q', 1], ['t', 3], ['u', 1], ['d', 2], ['d', 1], ['d', 2]])
             # arguments: the task's own fresh variables, or ground terms (tasks never share variables)
             tasks.append([n, a, [(['v', j] if rng.random() < 0.6 else rng.choice([['a', 'a'], ['a', 'b'], ['a', 'c'], ['i', 1], ['i', 2]])) for j in range(a)]])
+        if rng.random() < 0.4:
+            # same-fact focus: several tasks use one non-ground fact with different ground arguments
+            dyn = [['d', [['v', 0], ['v', 0]]]] + dyn[:1]
+            ntasks = rng.randrange(3, 5)
+            tasks = [['d', 2, [rng.choice([['a', 'a'], ['a', 'b'], ['a', 'c']]), ['v', 0]]] for _ in range(ntasks)]
         steps = [[rng.randrange(ntasks), rng.choice(['next'] * 8 + ['close', 'drop'])] for _ in range(rng.randrange(4, 40))]
         return {'mode': mode, 'world': world, 'dynfacts': dyn, 'tasks': tasks, 'steps': steps}
     ne = rng.choice((2, 2, 3))
-    hs = [gen_history(rng, rng.randrange(5, 26)) for _ in range(ne)]
+    ng_heavy = rng.random() < 0.3
+    hs = [gen_history(rng, rng.randrange(5, 26), ng_heavy) for _ in range(ne)]
     return {'mode': mode, 'histories': hs, 'sched_seed': rng.randrange(1 << 30), 'switch_p': rng.choice((0.005, 0.02, 0.05, 0.2)), 'schedule': None}
 
 
@@ -155,6 +170,19 @@ class EngineRun:
                 yp.assert_fact(yp.atom(op[1]), [yp.atom(op[2] + self.tag)], not op[3])
                 return None
             return sum(1 for _ in yp.query('asserta' if op[3] else 'assertz', [yp.functor(op[1], [yp.atom(op[2] + self.tag)])]))
+        if kind == 'assertng':
+            # a fact with a repeated, fact-local variable: same(X,X)-like; matching it copies its arguments one by one
+            v = yp.variable()
+            yp.assert_fact(yp.atom(op[1]), [v, yp.functor('k', [v]), v])
+            return None
+        if kind == 'query2':
+            x, y = yp.variable(), yp.variable()
+            r = []
+            for _ in yp.query(op[1], [yp.atom(op[2] + self.tag), x, y]):
+                r.append([to_python(x), to_python(y)])
+                if len(r) > 50:
+                    break
+            return r
         if kind == 'retract':
             x = yp.variable()
             g = yp.query('retract', [yp.functor(op[1], [x])])
